@@ -477,7 +477,9 @@ public:
     }
     PPL_DIRTY_TEMP(Boundary, u);
     Result result = sub_2exp_assign_r(u, upper(), w, ROUND_UP);
-    if (result_overflow(result) == 0 && u > lower()) {
+    // If the interval spans at least 2^w, then it contains a
+    // representative for each of the 2^w values.
+    if (result_overflow(result) == 0 && u >= lower()) {
       return assign(refinement);
     }
     info().clear();
